@@ -48,6 +48,8 @@ def strip(t):
             t = t[2][0]
         elif t[0] == "try":
             t = t[1]
+        elif t[0] == "seq":
+            t = t[2]
         else:
             return t
 
@@ -72,6 +74,7 @@ def size_class(t, lhs, rhs):
 
 def leaves(t, conds=()):
     """(path condition terms, leaf term) for if/else trees."""
+    t = S.value(t)
     if t[0] == "ite":
         yield from leaves(t[2], conds + ((t[1], True),))
         yield from leaves(t[3], conds + ((t[1], False),))
@@ -80,12 +83,14 @@ def leaves(t, conds=()):
 
 
 def ok_payload(t):
+    t = S.value(t)
     if t[0] == "adt" and t[1].endswith("result::Result") and t[2] == "Ok":
         return dict(t[3])["0"]
     return None
 
 
 def is_err(t):
+    t = S.value(t)
     return t[0] == "adt" and t[1].endswith("result::Result") and t[2] == "Err"
 
 
@@ -465,6 +470,7 @@ def run(run):
 
             def visit(t, in_err, opnames=None):
                 nonlocal n_top, n_val
+                t = S.value(t)
                 if t[0] == "ite":
                     visit(t[2], in_err, opnames)
                     visit(t[3], in_err, opnames)
